@@ -39,6 +39,10 @@ EXCLUSIONS = {
     'svg-prefix-end': 'svg:-prefixed element with a separate end tag',
     'charref-lt-amp': 'numeric character reference to < or & (&#60; &#38;)',
     'numeric-string': 'id/class/href-like attribute whose whole value reads as a number with optional unit',
+    'trailing-dot-flag': 'number written with a trailing dot (5.) directly before an arc flag, or followed by an exponent (5.e1)',
+    'foreignobject-empty': 'foreignObject element with an end tag but no content',
+    'foreignobject-attr': 'attribute value with a blank run or a character reference inside foreignObject',
+    'inline-nested-svg': 'svg element nested in inline SVG, self-closed inline root (HTML lexer of the parse library ends the SVG at the first </svg)',
 }
 INCLUDE = set(x for x in os.environ.get('C05_INCLUDE', '').split(',') if x)
 
@@ -81,13 +85,15 @@ def accepting_prefix(toks):
     return toks[:n]
 
 
-def num_forms(v, dec, rnd, style):
+def num_forms(v, dec, rnd, style, nodot=False):
     """one spelling of the exact decimal v / 10^dec"""
     neg = v < 0
     a = abs(v)
     s = str(a).rjust(dec + 1, '0')
     ip, fp = (s[:-dec], s[-dec:]) if dec else (s, '')
     form = rnd.choice(style['forms'])
+    if form == 'dot' and nodot:
+        form = 'plain'
     if form == 'min':
         f = fp.rstrip('0')
         i = ip.lstrip('0')
@@ -183,7 +189,7 @@ def render_path(toks, rnd, style=None, dec=None):
             for pos in range(ar):
                 v = vals[gi * ar + pos]
                 isflag = u == 'A' and pos in (3, 4)
-                s = str(v) if isflag else num_forms(v, dec, rnd, style)
+                s = str(v) if isflag else num_forms(v, dec, rnd, style, nodot=(u == 'A' and pos == 2 and excluded('trailing-dot-flag')))
                 if prev == 'letter':
                     sep = ' ' if rnd.random() < style['lsp'] else ''
                 elif prev == 'flag':
@@ -317,7 +323,7 @@ NUMERIC_STRINGS = ['007', '1000', '5px', '1.0', '2E3']       # only with C05_INC
 TEXTS = ['a', 'a b', 'x&amp;y', '&lt;b', '<![CDATA[ c ]]>', 'a &#65; b', '<![CDATA[<<<<<<]]>', 'é', '  p  q  ', 'w\n  z']
 TEXTS_IN_TEXT = ['a', 'a b', 'x&amp;y', 'c  d e', '&#65;b', '<![CDATA[q]]>']
 CSS_TEXTS = ['a{fill:red}', ' .b { stroke : #ff0000 } ', '<![CDATA[ c > d { fill : blue } ]]>']
-FOREIGN_OBJECT = ['<div xmlns="http://www.w3.org/1999/xhtml">t  u</div>', '<p xmlns="http://www.w3.org/1999/xhtml"> v </p>', '']
+FOREIGN_OBJECT = ['<div xmlns="http://www.w3.org/1999/xhtml">t  u</div>', '<p xmlns="http://www.w3.org/1999/xhtml"> v </p>', 'w']
 TEXT_CONTEXT = {5, 6}
 STRING_ATTRS = {1, 14, 24, 17}
 
@@ -359,10 +365,12 @@ def render_doc(toks, rnd, mode, nvals):
             out.append('/>' if selfclose else '>')
             intag = False
 
-    def name_of(e):
+    def name_of(e, depth):
         n = ELEMENTS[e]
         if inline and n.startswith('svg:'):
             n = n[4:]          # prefixes mean nothing to an HTML parser
+        if inline and e == 1 and depth > 0 and excluded('inline-nested-svg'):
+            n = 'g'
         return n
 
     i = 0
@@ -374,7 +382,7 @@ def render_doc(toks, rnd, mode, nvals):
             if stack:
                 stack[-1][1] = True
             out.append(layout())
-            nm = name_of(a)
+            nm = name_of(a, len(stack))
             used_ed = used_ed or nm.startswith('ed:')
             used_svgp = used_svgp or nm.startswith('svg:')
             out.append('<' + nm)
@@ -414,7 +422,7 @@ def render_doc(toks, rnd, mode, nvals):
                 out.append(pick(TEXTS, a, 0, rnd))
         else:
             e, has, _, _ = stack.pop()
-            nm = name_of(e)
+            nm = name_of(e, len(stack))
             if e == 15 and not has:
                 close_start_tag()
                 fo = rnd.choice(FOREIGN_OBJECT)
@@ -422,6 +430,8 @@ def render_doc(toks, rnd, mode, nvals):
                 has = bool(fo)
             if intag:
                 r = rnd.random()
+                if inline and not stack and excluded('inline-nested-svg'):
+                    r = 1.0
                 if r < 0.5:
                     close_start_tag(selfclose=True)
                 else:
@@ -524,6 +534,7 @@ def generate(ctx):
     """(MC)+(GEN): returns (path token strings exhaustive, simulated, doc token strings exhaustive, simulated)"""
     q = ctx.quick()
     w = min(8, vlib.JOBS)
+    t0 = vlib.time.time()
     # design level: laws of the interpreter
     r = vlib.tlc_mc(ctx, 'SvgPathLaws', 'SvgPathLaws_quick.cfg' if q else 'SvgPathLaws_thorough.cfg', workers=w,
                     heap='4g', timeout=2400)
@@ -551,6 +562,7 @@ def generate(ctx):
         raise vlib.Infra('SvgDocGen simulate failed: ' + rs['out'][-1500:])
     dsim = uniq(tlc_json_lines(rs['out']))
     ctx.coverage['docs_simulated'] = len(dsim)
+    vlib.log('C05 generate: %.1fs' % (vlib.time.time() - t0))
     return pex, psim, dex, dsim
 
 
@@ -691,50 +703,56 @@ def ident_doc(c, clause):
 
 
 def confirm(ctx, exe, cases, lines, why):
-    """every rejected line: re-run its case ALONE in a fresh process and re-validate; only what is
-    rejected again is reported"""
-    bad_cases = sorted(set(json.loads(lines[i])['id'] for i in why))
-    redo = [dict(cases[cid]) for cid in bad_cases]
-    # a rejected path of a multi-path document is first tried on its own
-    singles = []
+    """every rejected line: re-run ALONE in a fresh process and re-validate; only what is rejected
+    again is reported.  A rejected path of a multi-path document is first tried on its own; if it only
+    fails after the other paths of its document, the witness is the document prefix."""
+    redo = []
     for i in sorted(why):
         e = json.loads(lines[i])
-        if e['kind'] == 'path' and len(cases[e['id']].get('paths', [])) != 1:
-            singles.append(dict(kind='path', mode=e['mode'], gen=e['gen'], paths=[e['in']], id=0, single_of=(e['id'], e['sub'])))
-    allre = redo + singles
-    for k, c in enumerate(allre):
-        c['orig'] = c.get('id')
+        c = cases[e['id']]
+        if e['kind'] == 'path':
+            redo.append(dict(kind='path', mode=e['mode'], gen=False, paths=[e['in']], what=('single', i)))
+            if c['kind'] == 'path' and len(c['paths']) > 1:
+                redo.append(dict(kind='path', mode=e['mode'], gen=False, paths=c['paths'][:e['sub'] + 1], what=('prefix', i)))
+        else:
+            redo.append(dict(c, what=('doc', i)))
+    for k, c in enumerate(redo):
         c['id'] = k
-    rl = run_driver(ctx, exe, [{kk: vv for kk, vv in c.items() if kk not in ('orig', 'single_of')} for c in allre], 'confirm')
+    rl = run_driver(ctx, exe, [{kk: vv for kk, vv in c.items() if kk != 'what'} for c in redo], 'confirm')
     _, why2, _ = validate(ctx, rl)
-    single_ok = set()
+    done = set()
+    reproduced = set()
     reported = 0
     for j in sorted(why2):
+        reproduced.add(redo[json.loads(rl[j])['id']]['what'][1])
+    lost = sorted(set(why) - reproduced)
+    if lost:
+        raise vlib.Infra('%d rejected lines were not rejected again when re-run alone, e.g. %s' % (
+            len(lost), line_text(json.loads(lines[lost[0]]))[:600]))
+    for j in sorted(why2):
         e = json.loads(rl[j])
-        c = allre[e['id']]
+        c = redo[e['id']]
+        kind, i = c['what']
         clauses = why2[j]
-        if e['kind'] == 'path':
-            if 'single_of' in c or len(c.get('paths', [])) == 1:
-                ident = ident_path(e['mode'], bytes(e['in']).decode('latin1'))
-                if 'single_of' in c:
-                    single_ok.add(c['single_of'])
-            else:
-                # only reproduces inside its document (state carried over between paths)
-                if (c['orig'], e['sub']) in single_ok:
-                    continue
-                ident = dict(kind='path', mode=e['mode'], d=bytes(e['in']).decode('latin1'),
-                             after=[bytes(p).decode('latin1') for p in c['paths'][:e['sub']]])
-            if c.get('kind') == 'doc' and 'single_of' not in c:
-                # a d attribute of a document case
-                ident = ident_path(e['mode'], bytes(e['in']).decode('latin1'))
-            ctx.report(ident, '%s: %s [%s]' % (e['mode'], line_text(e), '/'.join(clauses)), replay_obj=dict(line=e))
-            reported += 1
+        if kind == 'single':
+            done.add(i)
+            ident = ident_path(e['mode'], bytes(e['in']).decode('latin1'))
+        elif kind == 'prefix':
+            if i in done or e['sub'] != len(c['paths']) - 1:
+                continue
+            ident = dict(kind='path', mode=e['mode'], d=bytes(e['in']).decode('latin1'),
+                         after=[bytes(p).decode('latin1') for p in c['paths'][:-1]])
         else:
+            if e['kind'] == 'path':
+                continue            # the d attributes of a document are confirmed as single paths
             for cl in clauses:
                 ctx.report(ident_doc(c, cl), '%s document: clause %s fails; input %s' % (
                     e['mode'], cl, (c.get('relfile') or bytes(c['src']).decode('utf-8', 'replace'))[:300]),
                     replay_obj=dict(raw=e.get('raw'), err=e.get('err')))
                 reported += 1
+            continue
+        ctx.report(ident, '%s: %s [%s]' % (e['mode'], line_text(e), '/'.join(clauses)), replay_obj=dict(line=e))
+        reported += 1
     return reported
 
 
@@ -754,8 +772,12 @@ def run(ctx):
         c['id'] = len(cases)
         cases.append(c)
     os.environ['C05_RAW'] = '1'
+    t0 = vlib.time.time()
     lines = run_driver(ctx, exe, cases, 'main')
+    vlib.log('C05 driver: %d cases, %d lines, %.1fs' % (len(cases), len(lines), vlib.time.time() - t0))
+    t0 = vlib.time.time()
     accepted, why, skipped = validate(ctx, lines)
+    vlib.log('C05 trace validation: %.1fs, %d rejected lines' % (vlib.time.time() - t0, len(why)))
     # statistics measured on the recorded lines
     nontrivial, samples = set(), []
     npath = ndoc = ngeo = 0
